@@ -262,6 +262,7 @@ static TF_U: std::sync::atomic::AtomicU64 = std::sync::atomic::AtomicU64::new(0)
 // "rogue t p": from the next init on, asset token t (which no pair should trade) names contract p - the address a pair will
 // get - as its MINTER: a counterfeit "share token" of that pair.  Nobody mints it in such a history; the snapshot keeps
 // reporting the minter the model knows (user0), the way code-id copies are kept out of the model.
+static CREATE_COUNT: std::sync::atomic::AtomicU64 = std::sync::atomic::AtomicU64::new(0);
 static ROGUE_T: std::sync::atomic::AtomicU64 = std::sync::atomic::AtomicU64::new(u64::MAX);
 static ROGUE_P: std::sync::atomic::AtomicU64 = std::sync::atomic::AtomicU64::new(0);
 static LOOK_D: std::sync::atomic::AtomicU64 = std::sync::atomic::AtomicU64::new(u64::MAX);
@@ -288,6 +289,12 @@ fn denom_s(d: u128) -> String {
         // a second IBC voucher that shares its first 16 and its last 8 characters with denom 1 (long identifiers that differ
         // in the middle only)
         6 => "ibc/27394FB092D2A17B56123C74F36E4C1F926001CEADA9CA97EA622B25F41E5EB2".to_string(),
+        // denoms that contain the dash some renderings use as a separator: {axl-usdc, weth} and {axl, usdc-weth} print alike
+        // when their sorted parts are joined with "-" but are different sets under different registry keys
+        7 => "axl-usdc".to_string(),
+        8 => "weth".to_string(),
+        9 => "axl".to_string(),
+        10 => "usdc-weth".to_string(),
         _ => format!("denom{}", d),
     }
 }
@@ -1176,7 +1183,14 @@ fn exec(w: &mut World, c: &mut Cur) -> Result<AppResponse, String> {
                     },
                     commission_rate: comm.map(|a| bignumber::Decimal256(bigint::U256::from_dec_str(&a.to_string()).unwrap())),
                     lp_token_info: LPTokenInfo {
-                        lp_token_name: "halo-lp".to_string(),
+                        // display names are free text (cw20-base asks for 3..50 bytes): every other pair is created with a name
+                        // that is three spaces, the others with an ordinary one; the contracts do nothing with the name - unless
+                        // a change makes them (C20-agent21: echoed into a response attribute, which the runtime refuses when blank)
+                        lp_token_name: if CREATE_COUNT.fetch_add(1, std::sync::atomic::Ordering::SeqCst) % 2 == 1 {
+                            "   ".to_string()
+                        } else {
+                            "halo-lp".to_string()
+                        },
                         lp_token_symbol: "HALOLP".to_string(),
                         lp_token_decimals: lpdec.map(|d| d as u8),
                     },
